@@ -742,3 +742,175 @@ func vh_C03_SliceOfPtrOf() {
 	vfAssert("ptrof", vfAnd(p != nil, *p == a))
 	vfReach("end")
 }
+
+// AT SCALE: the list helpers on a CONCRETE list whose length is taken from the code (vfProbe: just beyond every integer
+// constant the helpers compare a length, a count or an index with - a fast path, a pre-sizing limit, a chunk size in
+// the CURRENT source), next to the small size 7; values from a family of 5 (many repeats), concrete predicates and
+// functions, each result compared with a plain reference loop. On a tree without such constants: one small run.
+func vh_C03_AtScale() {
+	vfSetMapOrder(3)
+	n := vfProbe("n", "Map|Reduce|Filter|Reject|Partition|DropWhile|Concat|Flatten|Prepend|Reverse|Distinct|Dedupe|DropEq|UniqBy|Drop|Take|Head|Tail|SplitEvery|GroupBy|Zip|SliceToMap|Keys|Values|Merge|Min|Max|Range|Every|Some|Exists|IsEqual|IsDistinct|Duplicate", 7, 7)
+	l := make([]int, n)
+	for i := range l {
+		l[i] = (i*7 + 3) % 5
+	}
+	orig := append([]int{}, l...)
+	even := func(v int) bool { return v%2 == 0 }
+	evenI := func(v, i int) bool { return (v+i)%2 == 0 }
+	f := func(v int) int { return 3*v + 1 }
+	same := func(label string, got, want []int) {
+		ok := len(got) == len(want)
+		for i := 0; ok && i < len(want); i++ {
+			ok = got[i] == want[i]
+		}
+		vfAssert(label, ok)
+	}
+	if !vfNoPanic("nopanic", func() {
+		var want, want2 []int
+		// Map / MapIndexed / Reduce
+		want = nil
+		sum := 0
+		for i, v := range l {
+			want = append(want, f(v))
+			want2 = append(want2, v+i)
+			sum = sum*3 + v
+		}
+		same("map", Map(f, l...), want)
+		same("mapindexed", MapIndexed(func(v, i int) int { return v + i }, l...), want2)
+		vfAssert("reduce", Reduce(func(m, v int) int { return m*3 + v }, 0, l...) == sum)
+		// Filter / Reject / Partition / DropWhile
+		var keep, drop, pt, pf, dw []int
+		dropping := true
+		for i, v := range l {
+			if evenI(v, i) {
+				keep = append(keep, v)
+			} else {
+				drop = append(drop, v)
+			}
+			if even(v) {
+				pt = append(pt, v)
+			} else {
+				pf = append(pf, v)
+			}
+			if dropping && v != 0 {
+				continue
+			}
+			dropping = false
+			dw = append(dw, v)
+		}
+		same("filter", Filter(evenI, l...), keep)
+		same("reject", Reject(evenI, l...), drop)
+		parts := Partition(even, l...)
+		vfAssert("partition", len(parts) == 2)
+		if len(parts) == 2 {
+			same("partition-true", parts[0], pt)
+			same("partition-false", parts[1], pf)
+		}
+		same("dropwhile", DropWhile(func(v int) bool { return v != 0 }, l...), dw)
+		// Reverse / Distinct / Dedupe / DropEq / UniqBy / IsDistinct / Exists
+		var rev, dist, ded, deq, uq []int
+		seen, seenU := map[int]bool{}, map[int]bool{}
+		for i := range l {
+			rev = append(rev, l[len(l)-1-i])
+		}
+		for i, v := range l {
+			if !seen[v] {
+				dist = append(dist, v)
+			}
+			seen[v] = true
+			if i == 0 || l[i-1] != v {
+				ded = append(ded, v)
+			}
+			if v != 3 {
+				deq = append(deq, v)
+			}
+			if !seenU[v%3] {
+				uq = append(uq, v)
+			}
+			seenU[v%3] = true
+		}
+		same("reverse", Reverse(l...), rev)
+		same("distinct", Distinct(l...), dist)
+		same("dedupe", Dedupe(l...), ded)
+		same("dropeq", DropEq(3, l...), deq)
+		same("uniqby", UniqBy(func(v int) int { return v % 3 }, l...), uq)
+		vfAssert("isdistinct", IsDistinct(l...) == (len(dist) == len(l)))
+		vfAssert("exists", Exists(4, l...) == seen[4] && !Exists(9, l...))
+		// Drop / DropLast / Take / TakeLast / Head / Tail around the middle and the ends
+		for _, c := range []int{0, 1, n / 2, n - 1, n, n + 1} {
+			k := c
+			if k > n {
+				k = n
+			}
+			same("drop", Drop(c, l...), l[k:])
+			same("droplast", DropLast(c, l...), l[:n-k])
+			if c > 0 { // (a count of 0 gives the whole list: pinned, see vh_C03_Take)
+				same("take", Take(c, l...), l[:k])
+				same("takelast", TakeLast(c, l...), l[n-k:])
+			}
+		}
+		vfAssert("head", Head(l...) == l[0])
+		same("tail", Tail(l...), l[1:])
+		// SplitEvery / Concat / Flatten / Prepend / DuplicateSlice
+		for _, size := range []int{1, 3, n - 1, n} {
+			groups := SplitEvery(size, l...)
+			var flat []int
+			okSizes := true
+			for gi, g := range groups {
+				flat = append(flat, g...)
+				if len(g) > size || (gi < len(groups)-1 && len(g) != size) {
+					okSizes = false
+				}
+			}
+			vfAssert("splitevery-sizes", okSizes)
+			same("splitevery-content", flat, l)
+		}
+		same("concat", Concat(l, l[:2], nil, l[2:]), append(append(append([]int{}, l...), l[:2]...), l[2:]...))
+		same("flatten", Flatten(l[:3], l[3:]), l)
+		same("prepend", Prepend(9, l), append([]int{9}, l...))
+		same("duplicate", DuplicateSlice(l), l)
+		// GroupBy / Zip / SliceToMap / Keys / Values / MinMax / Every / Some / IsEqual
+		groups := GroupBy(func(v int) int { return v % 2 }, l...)
+		same("groupby-even", groups[0], pt)
+		same("groupby-odd", groups[1], pf)
+		z := Zip(l, rev)
+		okZip := true
+		last := map[int]int{}
+		for i, v := range l {
+			last[v] = rev[i]
+		}
+		for k, v := range last {
+			okZip = okZip && z[k] == v
+		}
+		vfAssert("zip", okZip && len(z) == len(last))
+		sm := SliceToMap(7, l...)
+		vfAssert("slicetomap", len(sm) == len(dist) && sm[l[0]] == 7)
+		vfAssert("keys-values", len(Keys(sm)) == len(dist) && len(Values(sm)) == len(dist))
+		mn, mx := l[0], l[0]
+		all, some := true, false
+		for _, v := range l {
+			if v < mn {
+				mn = v
+			}
+			if v > mx {
+				mx = v
+			}
+			all = all && even(v)
+			some = some || even(v)
+		}
+		gmn, gmx := MinMax(l...)
+		vfAssert("minmax", gmn == mn && gmx == mx && Min(l...) == mn && Max(l...) == mx)
+		vfAssert("every-some", Every(even, l...) == all && Some(even, l...) == some)
+		vfAssert("isequal", IsEqual(l, orig) && !IsEqual(l, rev[:n-1]))
+		r := Range(0, n)
+		okRange := len(r) == n
+		for i := 0; okRange && i < n; i++ {
+			okRange = r[i] == i
+		}
+		vfAssert("range", okRange)
+	}) {
+		return
+	}
+	same("input-unmodified", l, orig)
+	vfReach("end")
+}
